@@ -411,6 +411,12 @@ class Exec:
         # the first element is a member; a singleton set is exactly {first element}
         st.facts.append(z3.Implies(c > 0, z3.Select(t, e[0])))
         st.facts.append(z3.Implies(c == 1, t == z3.Store(S.EMPTY_SET, e[0], True)))
+        # S-SET: the enumeration is duplicate-free and lists exactly the members
+        from .calls import apply_spec
+        if self.ctx.registry is not None and "distinct" in self.ctx.registry.specs:
+            d = apply_spec(self, self.ctx.registry.specs["distinct"], [VSeq(e, S.Str, "list"), VNum(z3.Length(e), "int")], st)
+            st.facts.append(d.term)
+        st.facts.append(S.lam(lambda x: z3.Contains(e, z3.Unit(x)), e) == t)
         return VSeq(e, S.Str, "list"), e
 
     # ---------------------------------------------------------------- expressions
